@@ -12,7 +12,11 @@ CFG = {
                   "Equal and DeepEqual candidates (C16_equal_literal_forms), both under the explicit law EnvLaw; every attribute codec decodes what it encoded "
                   "and rejects exactly the wrong sizes. No bound on lengths of strings or extension lists. The model is tied to the code by "
                   "differential correspondence (C tie) on a grammar-based + mutation stream; a test table cannot cover the unbounded input space.",
-    "level_note": "Tie is C only (no translator tie: the codecs index byte slices, outside the gotolean subset). Trusted: Lean kernel "
+    "level_note": "Tie is C for the text form and the codecs (they index byte slices, outside the gotolean subset) and C + T for equality: "
+                  "sameAddressLiteral, candidateBase.transportAddressEqual, candidateBase.Equal, CandidateRelatedAddress.Equal, canonicalAddr and "
+                  "addrPortEqual are regenerated from the Go source on every run and proved equal, for all environments and candidates, to the model's "
+                  "sameAddressLiteral / transportAddressEqual / relEqual / equal (C16_code_*; the netip calls and the candidates' getters are "
+                  "parameters of the generated definitions, instantiated with Env.canon / resolved / the fields of Cand). Trusted: Lean kernel "
                   "(axioms propext/Classical.choice/Quot.sound), the harness and driver, the generators (what they do not generate is not seen). "
                   "Uninterpreted in every theorem (quantified as `Env`): netip.ParseAddr+Unmap().Is4() (cls), canonicalAddr(netip.ParseAddr(s)) (canon) "
                   "and CRC-32; the driver's executable mirrors of all three are sampled against Go on every run (`cand cls`, `cand canon`, `cand crc` "
@@ -45,7 +49,8 @@ CFG = {
             "incl. randomly re-spelt valid literals (case, leading zeros, any zero run compressed, dotted tail, zone). attr: "
             "boundary values of every width, every value length 0..24 x 10 contents per kind, random (quick 10k+10k, thorough 1M+1M). Distinct = "
             "distinct (operation, output) lines; non-trivial = output is not an error/skip line.",
-    "translated": [],
+    "translated": ["sameAddressLiteral", "candidateBase.transportAddressEqual", "candidateBase.Equal", "CandidateRelatedAddress.Equal",
+                   "canonicalAddr", "addrPortEqual"],
     "trusted_base": ["netip.ParseAddr / Unmap().Is4(), canonicalAddr(netip.ParseAddr(s)) and crc32.ChecksumIEEE are uninterpreted functions in all "
                      "theorems; executable mirrors (lean/Driver/NetMirror.lean) are validated by sampling only",
                      "the IP that addrEqual compares for a candidate's resolved address is modelled as canonicalAddr(ParseAddr(Address())); "
